@@ -227,10 +227,27 @@ impl InvalidProof {
         }
     }
 
+    fn audit_path_wrong_length(actual: usize, expected: usize) -> Self {
+        Self {
+            kind: InvalidProofKind::AuditPathWrongLength {
+                actual,
+                expected,
+            },
+        }
+    }
+
     fn leaf_index_outside_tree(leaf_index: usize, tree_size: NonZeroUsize) -> Self {
         Self {
             kind: InvalidProofKind::LeafIndexOutsideTree {
                 leaf_index,
+                tree_size,
+            },
+        }
+    }
+
+    fn tree_size_too_large(tree_size: NonZeroUsize) -> Self {
+        Self {
+            kind: InvalidProofKind::TreeSizeTooLarge {
                 tree_size,
             },
         }
@@ -260,8 +277,15 @@ enum InvalidProofKind {
     AuditPathNotMultipleOf32 {
         len: usize,
     },
+    AuditPathWrongLength {
+        actual: usize,
+        expected: usize,
+    },
     LeafIndexOutsideTree {
         leaf_index: usize,
+        tree_size: NonZeroUsize,
+    },
+    TreeSizeTooLarge {
         tree_size: NonZeroUsize,
     },
     ZeroTreeSize,
@@ -275,16 +299,25 @@ impl std::fmt::Display for InvalidProofKind {
             } => f.write_fmt(format_args!(
                 "audit path byte buffer length must be a multiple of 32 bytes, but was {len} bytes"
             )),
+            InvalidProofKind::AuditPathWrongLength {
+                actual,
+                expected,
+            } => f.write_fmt(format_args!(
+                "audit path must contain exactly {expected} hashes for the given leaf index and \
+                 tree size, but contained {actual}"
+            )),
             InvalidProofKind::LeafIndexOutsideTree {
                 leaf_index,
                 tree_size,
-            } => {
-                let tree_index = crate::leaf_index_to_tree_index(*leaf_index);
-                f.write_fmt(format_args!(
-                    "leaf index {leaf_index} corresponding to tree index {tree_index} exceeds \
-                     tree of size {tree_size}"
-                ))
-            }
+            } => f.write_fmt(format_args!(
+                "leaf index {leaf_index} lies outside of a tree of size {tree_size}"
+            )),
+            InvalidProofKind::TreeSizeTooLarge {
+                tree_size,
+            } => f.write_fmt(format_args!(
+                "tree size {tree_size} exceeds the maximum supported tree size {}",
+                crate::MAX_TREE_SIZE,
+            )),
             InvalidProofKind::ZeroTreeSize => f.pad("proof is undefined for trees of size zero"),
         }
     }
@@ -300,7 +333,7 @@ impl std::error::Error for InvalidProofKind {}
 /// ```rust
 /// use astria_merkle::Proof;
 /// let proof = Proof::unchecked()
-///     .audit_path(vec![42u8; 128])
+///     .audit_path(vec![42u8; 96])
 ///     .leaf_index(3)
 ///     .tree_size(15)
 ///     .try_into_proof()
@@ -369,8 +402,11 @@ impl UncheckedProof {
     ///
     /// Returns the following errors conditions:
     /// + if the tree size is zero, see [`ProofBuilder::tree_size`];
+    /// + if the tree size exceeds the maximum supported tree size;
     /// + if the leaf index falls outside the tree, see [`ProofBuilder::leaf_index`];
-    /// + if the audit path length is not a multiple of 32, see [`ProofBuilder::audit_path`].
+    /// + if the audit path length is not a multiple of 32, see [`ProofBuilder::audit_path`];
+    /// + if the audit path does not contain exactly one hash for every step from the leaf to the
+    ///   root of a tree of the given size.
     pub fn try_into_proof(self) -> Result<Proof, InvalidProof> {
         let Self {
             audit_path,
@@ -382,6 +418,10 @@ impl UncheckedProof {
             return Err(InvalidProof::zero_tree_size());
         };
 
+        if tree_size.get() > crate::MAX_TREE_SIZE {
+            return Err(InvalidProof::tree_size_too_large(tree_size));
+        }
+
         if !crate::is_leaf_index_in_tree(leaf_index, tree_size.get()) {
             return Err(InvalidProof::leaf_index_outside_tree(leaf_index, tree_size));
         }
@@ -390,6 +430,18 @@ impl UncheckedProof {
             return Err(InvalidProof::audit_path_not_multiple_of_32(
                 audit_path.len(),
             ));
+        }
+
+        // A proof whose audit path is shorter or longer than the walk from its leaf to the root
+        // can never be valid; walking past the root would take the index calculations outside
+        // of their domain.
+        let tree_index = leaf_index.saturating_mul(2);
+        let Some(expected) = crate::audit_path_len(tree_index, tree_size.get()) else {
+            return Err(InvalidProof::leaf_index_outside_tree(leaf_index, tree_size));
+        };
+        let actual = audit_path.len() / 32;
+        if actual != expected {
+            return Err(InvalidProof::audit_path_wrong_length(actual, expected));
         }
 
         Ok(Proof {
